@@ -23,7 +23,7 @@ Proof.
   - (* MemSet *)
     unfold mem_set. destruct kvs as [|kv kvs].
     + simpl. split; [|apply with_pend_grows].
-      split; [exact WF|]. split; [exact G|]. apply pend_ok_put_none. exact PO.
+      split; [exact WF|]. split; [exact G|]. apply pend_ok_put_absent_none. exact PO.
     + destruct (load_x s p) as [o|] eqn:L; [|simpl; auto using grows_refl].
       destruct (update_tree s p o (kv :: kvs) I L) as [o' [E [G' _]]]. rewrite E.
       destruct o' as [t|]; [|simpl; auto using grows_refl].
@@ -117,8 +117,16 @@ Definition target (r : xroot) (oc : otree) : Prop := xr r = tree_root oc /\ o_go
 Definition marker_safe (r : xroot) (oc : otree) (s : st) : Prop :=
   p_get (s_pend s) r = Some None -> committed s r oc.
 
+(** the update of [r] has not been lost: something waits under [r], or [r] is in the database *)
+Definition alive (r : xroot) (oc : otree) (s : st) : Prop :=
+  p_get (s_pend s) r <> None \/ committed s r oc.
+
 Definition empty_memset_on (r : xroot) (o : op) : bool :=
   match o with OMemSet x [] => xroot_eqb r x | _ => false end.
+
+(** operations that throw away what waits under [r] *)
+Definition discards (r : xroot) (o : op) : bool :=
+  match o with ORollback x => xroot_eqb r x | ORestart => true | _ => false end.
 
 Lemma target_pending : forall s r oc t, inv s -> target r oc ->
   p_get (s_pend s) r = Some (Some t) -> oc = Some t.
@@ -127,18 +135,19 @@ Proof.
   apply good_same_root; simpl; auto.
 Qed.
 
-Lemma marker_safe_step : forall s r oc o, inv s -> target r oc -> marker_safe r oc s ->
-  empty_memset_on r o = false \/ committed s r oc ->
+(** operations other than an empty MemSet on [r] never leave an unsafe marker under [r] *)
+Lemma marker_safe_step_other : forall s r oc o, inv s -> target r oc -> marker_safe r oc s ->
+  empty_memset_on r o = false ->
   marker_safe r oc (snd (step s o)).
 Proof.
   intros s r oc o I T M Hg P.
   pose proof (step_grows s o I) as GR.
-  destruct Hg as [Hg|Hc]; [|eapply committed_grows; eauto].
   assert (Keep : p_get (s_pend s) r = Some None -> committed (snd (step s o)) r oc).
   { intros P0. eapply committed_grows; eauto. }
   destruct o as [p kvs|p kvs|x|x|x ks|]; cbn [step] in *.
   - unfold mem_set in *. destruct kvs as [|kv kvs].
-    + cbn [snd fst s_pend with_pend save_x] in P. simpl in Hg. rewrite p_get_put_other in P by exact Hg. auto.
+    + cbn [snd fst s_pend with_pend save_x] in P. simpl in Hg.
+      rewrite p_get_put_absent_other in P by exact Hg. auto.
     + destruct (load_x s p) as [o|]; [|auto].
       destruct (t_set_all o (kv :: kvs)) as [[t|]|]; cbn [snd fst s_pend with_pend save_x] in P; auto.
       destruct (xroot_eqb r (XH (thash t))) eqn:E.
@@ -159,6 +168,26 @@ Proof.
     + rewrite p_get_del_other in P by exact E. auto.
   - cbn [snd fst s_pend with_pend save_x] in P. auto.
   - cbn [snd fst s_pend with_pend save_x] in P. discriminate.
+Qed.
+
+(** An empty MemSet on [r] leaves the marker only if NOTHING waits under [r]
+    (LoadOrStore), so it cannot make the marker unsafe while the update is alive. *)
+Lemma marker_safe_step : forall s r oc o, inv s -> target r oc -> marker_safe r oc s ->
+  empty_memset_on r o = false \/ alive r oc s ->
+  marker_safe r oc (snd (step s o)).
+Proof.
+  intros s r oc o I T M Hg.
+  destruct (empty_memset_on r o) eqn:E; [|apply marker_safe_step_other; auto].
+  destruct Hg as [Hg|[Ha|Hc]]; [discriminate| |].
+  - (* something waits under [r]: the table is left as it is *)
+    destruct o as [p kvs|p kvs|x|x|x ks|]; try discriminate.
+    destruct kvs as [|kv kvs]; [|discriminate]. simpl in E.
+    apply xroot_eqb_eq in E. subst p. intros P.
+    cbn [step mem_set snd fst s_pend with_pend] in P.
+    destruct (p_get (s_pend s) r) as [w|] eqn:E; [|congruence].
+    rewrite (put_absent_some _ _ None w E) in P.
+    apply (committed_grows s); auto using step_grows.
+  - intros _. apply (committed_grows s); auto using step_grows.
 Qed.
 
 Lemma marker_safe_run : forall ops s r oc, inv s -> target r oc -> marker_safe r oc s ->
@@ -184,24 +213,103 @@ Proof.
   - apply (committed_grows s); auto using with_pend_grows.
 Qed.
 
+(** as long as nothing discards it, the update of [r] stays alive *)
+Lemma alive_step : forall s r oc o, inv s -> target r oc -> marker_safe r oc s -> alive r oc s ->
+  discards r o = false -> alive r oc (snd (step s o)).
+Proof.
+  intros s r oc o I T M [A|C] D; [|right; apply (committed_grows s); auto using step_grows].
+  unfold alive. destruct o as [p kvs|p kvs|x|x|x ks|]; cbn [step].
+  - unfold mem_set. destruct kvs as [|kv kvs].
+    + left. cbn [snd s_pend with_pend]. destruct (xroot_eqb r p) eqn:E.
+      * apply xroot_eqb_eq in E. subst p. apply p_get_put_absent_same.
+      * rewrite p_get_put_absent_other by exact E. exact A.
+    + destruct (load_x s p) as [o|]; [|left; exact A].
+      destruct (t_set_all o (kv :: kvs)) as [[t|]|]; cbn [snd s_pend with_pend]; try (left; exact A).
+      left. destruct (xroot_eqb r (XH (thash t))) eqn:E.
+      * apply xroot_eqb_eq in E. subst r. rewrite p_get_put_same. discriminate.
+      * rewrite p_get_put_other by exact E. exact A.
+  - unfold set_direct. destruct (load_x s p) as [o|]; [|left; exact A].
+    destruct (t_set_all o kvs) as [[t|]|]; cbn [snd s_pend save_x]; left; exact A.
+  - destruct (xroot_eqb r x) eqn:E.
+    + apply xroot_eqb_eq in E. subst x. right.
+      destruct (p_get (s_pend s) r) as [w|] eqn:P; [|congruence].
+      apply (commit_ack s r oc r I T M). cbn [step]. unfold commit. rewrite P.
+      destruct w; reflexivity.
+    + left. unfold commit.
+      destruct (p_get (s_pend s) x) as [[t|]|]; cbn [snd s_pend with_pend save_x];
+        try rewrite p_get_del_other by exact E; exact A.
+  - simpl in D. left. unfold rollback.
+    destruct (p_get (s_pend s) x) as [y|]; cbn [snd s_pend with_pend];
+      try rewrite p_get_del_other by exact D; exact A.
+  - left. exact A.
+  - discriminate.
+Qed.
+
+(** no Rollback of [r] and no restart *)
+Definition still_pending (r : xroot) (ops : list op) : bool :=
+  forallb (fun o => negb (discards r o)) ops.
+
+(** no empty MemSet on [r] after the first Rollback of [r] / restart *)
+Fixpoint no_marker_after_discard (r : xroot) (ops : list op) : bool :=
+  match ops with
+  | [] => true
+  | o :: tl =>
+      if discards r o then forallb (fun o' => negb (empty_memset_on r o')) tl
+      else no_marker_after_discard r tl
+  end.
+
+Lemma still_pending_general : forall r ops,
+  still_pending r ops = true -> no_marker_after_discard r ops = true.
+Proof.
+  induction ops as [|o ops IH]; intros H; simpl in *; [reflexivity|].
+  apply andb_prop in H. destruct H as [H1 H2].
+  destruct (discards r o); [discriminate|auto].
+Qed.
+
+Lemma no_marker_general : forall r ops,
+  forallb (fun o => negb (empty_memset_on r o)) ops = true -> no_marker_after_discard r ops = true.
+Proof.
+  induction ops as [|o ops IH]; intros H; simpl in *; [reflexivity|].
+  apply andb_prop in H. destruct H as [H1 H2].
+  destruct (discards r o); auto.
+Qed.
+
+Lemma marker_safe_run_general : forall ops s r oc, inv s -> target r oc ->
+  marker_safe r oc s -> alive r oc s ->
+  no_marker_after_discard r ops = true ->
+  marker_safe r oc (run s ops).
+Proof.
+  induction ops as [|o ops IH]; intros s r oc I T M A H; simpl; [exact M|].
+  simpl in H. destruct (discards r o) eqn:D.
+  - apply marker_safe_run; auto using step_inv.
+    apply marker_safe_step; [exact I|exact T|exact M|right; exact A].
+  - apply IH; auto using step_inv.
+    + apply marker_safe_step; [exact I|exact T|exact M|right; exact A].
+    + apply alive_step; auto.
+Qed.
+
 (** what MemSet leaves behind *)
 Lemma mem_set_spec : forall s p o kvs r s1, inv s -> committed s p o ->
   mem_set s p kvs = (RRoot r, s1) ->
   exists oc, target r oc /\ o_elements oc = apply_writes (o_elements o) kvs /\
-             marker_safe r oc s1 /\ (r = p -> oc = o).
+             marker_safe r oc s1 /\ alive r oc s1 /\ (r = p -> oc = o).
 Proof.
   intros s p o kvs r s1 I C H. pose proof (committed_good _ _ _ I C) as [G [ST XR]].
   unfold mem_set in H. destruct kvs as [|kv kvs].
   - injection H as <- <-. exists o. split; [split; auto|]. split; [reflexivity|].
-    split; [|auto]. intros _. apply (committed_grows s); auto using with_pend_grows.
+    split; [|split; [|auto]].
+    + intros _. apply (committed_grows s); auto using with_pend_grows.
+    + left. cbn [s_pend with_pend]. apply p_get_put_absent_same.
   - unfold committed in C. rewrite C in H.
     destruct (update_tree s p o (kv :: kvs) I C) as [o' [E [G' HE]]]. rewrite E in H.
     destruct o' as [t|].
     + injection H as <- <-. exists (Some t). split; [split; simpl; auto|]. split; [exact HE|].
-      split.
+      split; [|split].
       * intros P. cbn [s_pend with_pend] in P. rewrite p_get_put_same in P. discriminate.
+      * left. cbn [s_pend with_pend]. rewrite p_get_put_same. discriminate.
       * intros EQ. apply good_same_root; auto. rewrite <- XR, <- EQ. reflexivity.
     + injection H as <- <-. exists None. split; [split; simpl; auto|]. split; [exact HE|].
-      split; [|intros EQ; apply good_same_root; auto; rewrite <- XR, <- EQ; reflexivity].
-      intros _. unfold committed. reflexivity.
+      split; [|split; [|intros EQ; apply good_same_root; auto; rewrite <- XR, <- EQ; reflexivity]].
+      * intros _. unfold committed. reflexivity.
+      * right. unfold committed. reflexivity.
 Qed.
